@@ -14,6 +14,7 @@ sorting the completion log by request id.  `Sim` is a light Python replica of th
 is used ONLY to steer generators (which tx id is outstanding, where the deadline is); it is never
 used as an oracle.
 """
+import re
 import vlib
 
 MS = 10**6
@@ -37,7 +38,8 @@ def plain(script):
 
 def to_line(case):
     cfg, script = case
-    return (f'cap={cfg["cap"]} handles={cfg["handles"]} mt={cfg["mt"]} rmin={cfg["rmin"]} rmax={cfg["rmax"]} | '
+    return (f'cap={cfg["cap"]} handles={cfg["handles"]} mt={cfg["mt"]} rmin={cfg["rmin"]} rmax={cfg["rmax"]}'
+            + (' rtu=1' if cfg.get('rtu') else '') + ' | '
             + ' '.join(step_token(s) for s in script))
 
 
@@ -79,7 +81,7 @@ def to_coq(case):
     script = plain(script)
     mt = f'Some {cfg["mt"]}' if cfg['mt'] else 'None'
     return (f'{{| k_cap := {cfg["cap"]}; k_handles := {cfg["handles"]}; k_max_timeouts := {mt}; k_rmin := {cfg["rmin"]}; '
-            f'k_rmax := {cfg["rmax"]}; k_res := {RES}; k_script := [{"; ".join(step_coq(s) for s in script)}] |}}')
+            f'k_rmax := {cfg["rmax"]}; k_res := {RES}; k_rtu := {"true" if cfg.get("rtu") else "false"}; k_script := [{"; ".join(step_coq(s) for s in script)}] |}}')
 
 
 def canon(line):
@@ -116,6 +118,8 @@ def run_both(ctx, cases, shards=8, per_shard=150):
     if not MODEL_OK:
         return [canon(i) for i in impl], [canon(i) for i in impl]
     model = ctx.coq_eval(REQUIRES, 'eval_case', [to_coq(c) for c in cases], case_type='case', per_shard=per_shard)
+    # RTU frames carry no transaction id: the model's (internal) stamp is not on the wire
+    model = [re.sub(r'(^| )([wx])\d+:', r'\1\2-:', m) if c[0].get('rtu') else m for c, m in zip(cases, model)]
     return [canon(i) for i in impl], [canon(m) for m in model]
 
 
@@ -185,14 +189,15 @@ def spec_failures(case, line):
         if b == 'd' and a != 'lC':
             bad.append('C13.dial-without-connecting')
     # C11: tx ids on the wire advance, consecutive ones differ; wire order = submission order
+    rtu = bool(cfg.get('rtu'))
     wires = [t for t in p['task'] if t[0] in 'wx']
-    txs = [int(t[1:t.index(':')]) for t in wires]
+    txs = [] if rtu else [int(t[1:t.index(':')]) for t in wires]
     wids = [int(t[t.index(':') + 1:].split('@')[0]) for t in wires]
     if any(a == b for a, b in zip(txs, txs[1:])):
         bad.append('C11.consecutive-requests-share-a-tx-id')
     fmt_failed = {c[0] for c in p['comp'] if c[1] in ('BadRequest', 'Internal')}
     taken = [i for i in submitted if i in set(wids) or i in fmt_failed]
-    if len(set(submitted)) == len(submitted):
+    if len(set(submitted)) == len(submitted) and not rtu:
         for k, i in enumerate(taken):
             for t, w in zip(txs, wids):
                 if w == i and t != k % 65536:
@@ -205,7 +210,7 @@ def spec_failures(case, line):
     wire_step = {}
     for t in wires:
         if t[0] == 'w':
-            tx = int(t[1:t.index(':')])
+            tx = -1 if rtu else int(t[1:t.index(':')])
             i, at = t[t.index(':') + 1:].split('@')
             at, _, k = at.partition('#')
             wire_of[int(i)] = (tx, int(at))
@@ -233,7 +238,7 @@ def spec_failures(case, line):
                 bad.append('C11.reply-result-for-a-request-never-transmitted')
                 continue
             tx, at = wire_of[i]
-            if not any(ft == t and ftx == tx and cls_of[k] == cl for ft, ftx, k in frames):
+            if not any(ft == t and (rtu or ftx == tx) and cls_of[k] == cl for ft, ftx, k in frames):
                 bad.append('C11.result-not-from-a-matching-frame')
             if t >= fires_at(at + kinds[i][3]):
                 bad.append('C12.reply-accepted-at-or-after-the-deadline')
@@ -300,7 +305,7 @@ def spec_failures(case, line):
         if fr is None or len(set(submitted)) != len(submitted):
             continue
         for i, (tx, at) in wire_of.items():
-            if tx != fr[0] or i in answered or wire_step.get(i, -1) < 0:
+            if (tx != fr[0] and not rtu) or i in answered or wire_step.get(i, -1) < 0:
                 continue
             if not (wire_step[i] < j and now < fires_at(at + kinds[i][3])):
                 continue                                          # not yet written / already past its timer instant
@@ -384,8 +389,10 @@ def session_outcomes(case, line):
 class Sim:
     """eager replica of Model/ClientTask.v, for steering generators only"""
 
-    def __init__(self, cfg):
+    def __init__(self, cfg, serial=False):
         self.cfg = cfg
+        self.serial = serial          # serial channel: the port is opened synchronously, no Connecting notification
+        self.open_ok = False
         self.ph = 'WaitEnabled'
         self.q = []
         self.blocked = []
@@ -493,9 +500,25 @@ class Sim:
         elif c[0] == 'D':
             self.enabled = False
 
+    def _connect_result(self, ok):
+        self.nl += 1
+        if ok:
+            self.ph = 'Idle'
+            self.tc = 0
+            self.partial = None
+        else:
+            self.ph = 'Waiting'
+            self.until = self.now + self.rcur
+            self.rcur = min(2 * self.rcur, self.cfg['rmax'])
+
     def _saturate(self):
         for _ in range(200):
-            if self.ph in ('Writing', 'InFlight', 'Waiting') and fires_at(self.until) <= self.now:
+            if self.serial and self.ph == 'Connecting':
+                self.nl -= 1                      # no Connecting notification on a serial channel
+                if self.open_ok:
+                    self.rcur = self.cfg['rmin']
+                self._connect_result(self.open_ok)
+            elif self.ph in ('Writing', 'InFlight', 'Waiting') and fires_at(self.until) <= self.now:
                 if self.ph == 'Writing':
                     self.ph = 'InFlight'
                     self.until = self.now + self.req[1]
@@ -518,6 +541,8 @@ class Sim:
         t = s[0]
         if t == 'T':
             self.now += s[1]
+        elif t == 'O':
+            self.open_ok = bool(s[1])
         elif t == 'W':
             self.wfail = True
         elif t == 'V':
@@ -539,15 +564,9 @@ class Sim:
                 self._drop(listener=False)
         elif t in ('CO', 'CE'):
             if self.ph == 'Connecting':
-                self.nl += 1
                 if t == 'CO':
-                    self.ph = 'Idle'
-                    self.tc = 0
-                    self.partial = None
-                else:
-                    self.ph = 'Waiting'
-                    self.until = self.now + self.rcur
-                    self.rcur = min(2 * self.rcur, self.cfg['rmax'])
+                    self.rcur = self.cfg['rmin']
+                self._connect_result(t == 'CO')
         elif t in ('F', 'P', 'Q', 'G', 'Z', 'R') and self.ph in ('Idle', 'InFlight'):
             if t in ('Z', 'R'):
                 if self.ph == 'InFlight':
@@ -672,6 +691,8 @@ def classify(case, line):
             cl.add('style:' + s[4])
     if p['done']:
         cl.add('task-done')
+    if cfg.get('rtu'):
+        cl.add('framing:rtu')
     return cl
 
 
